@@ -19,10 +19,13 @@ def impl():
 
 
 def guarded(f):
+    from rogw.tranp.errors import Errors
     try:
         return ('ok', f())
+    except Errors.Syntax:
+        return ('assert', None)     # a character of no token domain (model outcome LAssert)
     except AssertionError:
-        return ('assert', None)
+        return ('other:AssertionError', None)
     except IndexError:
         return ('index', None)
     except Exception as e:
